@@ -561,3 +561,82 @@ func TestVerifC05Interleave(t *testing.T) {
 		}
 	}
 }
+
+// TestVerifC05Retain: what the reassembler hands out stays what it was. The receiver may keep a
+// delivered payload (a relay queue, a batch) while later messages are reassembled by the same
+// Defragger; each retained message, compared at the END of the sequence, must still be byte-identical
+// (session, address, payload) to what was sent, and the fragments handed in must not have been altered.
+func TestVerifC05Retain(t *testing.T) {
+	k := vfNewKit(t, "C05", "frag-retain")
+	defer k.Finish()
+	nr := k.N(300, 6000)
+	for i := 0; i < nr; i++ {
+		caseID := fmt.Sprintf("rt-%d", i)
+		if rc := k.ReplayCase(); rc != "" && rc != caseID {
+			continue
+		}
+		r := k.Rand(caseID)
+		k.Eval()
+		nm := 2 + r.Intn(7)
+		limit := 100 + r.Intn(1200)
+		d := &Defragger{}
+		type kept struct {
+			sid  uint32
+			addr string
+			orig []byte
+			out  *protocol.UDPMessage
+		}
+		var keptMsgs []kept
+		var sizes []int
+		for j := 0; j < nm; j++ {
+			sid := uint32(1 + r.Intn(3))
+			addr := vfAddr(8+r.Intn(20), j)
+			n := 1 + r.Intn(4*limit)
+			if r.Intn(3) == 0 {
+				n = 1 + r.Intn(limit/2) // unfragmented ones in between
+			}
+			sizes = append(sizes, n)
+			orig := vfCodedPayload(uint32(i*16+j), n)
+			m := &protocol.UDPMessage{SessionID: sid, PacketID: uint16(1 + j + i%50000), FragID: 0, FragCount: 1, Addr: addr, Data: append([]byte(nil), orig...)}
+			frags := FragUDPMessage(m, limit)
+			var out *protocol.UDPMessage
+			for fi := range frags {
+				// through the wire: the receiver parses each datagram into fresh memory
+				buf := make([]byte, protocol.MaxUDPSize)
+				sz := frags[fi].Serialize(buf)
+				if sz < 0 {
+					continue
+				}
+				pm, err := protocol.ParseUDPMessage(append([]byte(nil), buf[:sz]...))
+				if err != nil {
+					continue
+				}
+				if o := d.Feed(pm); o != nil {
+					out = o
+				}
+			}
+			if out == nil {
+				k.Count("ev_retain_not_delivered", 1)
+				continue
+			}
+			keptMsgs = append(keptMsgs, kept{sid, addr, orig, out})
+		}
+		rep := map[string]any{"case_id": caseID, "limit": limit, "sizes": sizes}
+		for j, km := range keptMsgs {
+			k.Count("ev_retained_messages_checked", 1)
+			if !vfSameMsg(km.out, km.sid, km.addr, km.orig) {
+				first := 0
+				for first < len(km.out.Data) && first < len(km.orig) && km.out.Data[first] == km.orig[first] {
+					first++
+				}
+				k.Violation("frag:delivered-message-changed-afterwards", rep, "message %d of %d (%d bytes), still held by the receiver after the later messages were reassembled, now reads %d bytes differing from offset %d (session %d, addr %q)",
+					j, len(keptMsgs), len(km.orig), len(km.out.Data), first, km.out.SessionID, km.out.Addr)
+				break
+			}
+		}
+		k.Nontrivial(fmt.Sprint(limit, sizes))
+		if i == 0 {
+			k.Sample(rep)
+		}
+	}
+}
